@@ -9,14 +9,31 @@ package validator
 // what each method decides is an uninterpreted function of (validator, request): JWT / OAuth2 / bcrypt / HMAC
 // are not modelled; the JWT key function, the Basic credential parsing and the data the signature covers are
 // verified separately below.
-ufunc jwtAccepts(v int, r int) bool
 ufunc oauthAccepts(v int, r int) bool
-ufunc basicAccepts(v int, r int) bool
 
+// which token is verified: the configured cookie's value when that cookie is present and non-empty, otherwise
+// the text after "Bearer " of the Authorization header - and a request with neither is rejected unverified;
+// the request is accepted exactly when golang-jwt accepts that token under the key function below
+ghost var gJwtTok string
+ghost var gJwtParsed bool
+ghost var gJwtErr error
+pred bearerOf(req *httpprot.Request) := headerGet(ref(req.Request.Header), "Authorization")
+pred jwtAccepts(v *JWTValidator, req *httpprot.Request) := jwtFromCookie(v, req) ? jwtLibAccepts(cookieValue(ref(req.Request), v.spec.CookieName), ref(v)) : (hasPrefix(bearerOf(req), "Bearer ") && jwtLibAccepts(substr(bearerOf(req), 7, len(bearerOf(req)) - 7), ref(v)))
+pred jwtFromCookie(v *JWTValidator, req *httpprot.Request) := v.spec.CookieName != "" && cookiePresent(ref(req.Request), v.spec.CookieName) && cookieValue(ref(req.Request), v.spec.CookieName) != ""
 func (v *JWTValidator) Validate(req *httpprot.Request) (err error)
-  trusted
-  requires v != nil && req != nil
-  ensures decision: (err == nil) <==> jwtAccepts(ref(v), ref(req))
+  flag allocates
+  requires v != nil && v.spec != nil && req != nil && req.Request != nil
+  modifies gJwtTok, gJwtParsed, gJwtErr, jwtKeyOwner
+  ensures decision: (err == nil) <==> jwtAccepts(v, req)
+  ensures the-cookie-token-wins-when-present: jwtFromCookie(v, req) ==> gJwtParsed && gJwtTok == cookieValue(ref(req.Request), v.spec.CookieName)
+  ensures otherwise-the-bearer-token: !jwtFromCookie(v, req) && hasPrefix(headerGet(ref(req.Request.Header), "Authorization"), "Bearer ") ==> gJwtParsed && gJwtTok == substr(headerGet(ref(req.Request.Header), "Authorization"), 7, len(headerGet(ref(req.Request.Header), "Authorization")) - 7)
+  ensures no-token-is-rejected-without-parsing: !jwtFromCookie(v, req) && !hasPrefix(headerGet(ref(req.Request.Header), "Authorization"), "Bearer ") ==> err != nil && !gJwtParsed
+  ensures accepted-exactly-when-the-library-accepts-that-token: gJwtParsed ==> err == gJwtErr
+  ghost at entry: gJwtParsed := false
+  ghost at entry: jwtKeyOwner := ref(v)
+  ghost at call[1] Parse: gJwtParsed := true
+  ghost at call[1] Parse: gJwtTok := tokenString
+  ghost at call[1] Parse: gJwtErr := err
   // the key function handed to jwt.Parse pins the algorithm: the secret is released only for a token whose
   // header names the configured algorithm (no "alg: none" / algorithm-confusion downgrade)
   closure[1] (token *jwt.Token) (key interface{}, err error)
@@ -31,30 +48,54 @@ func (v *OAuth2Validator) Validate(req *httpprot.Request) (err error)
   requires v != nil && req != nil
   ensures (err == nil) <==> oauthAccepts(ref(v), ref(req))
 
+// Basic: the request is accepted exactly when its Authorization header is "Basic " + valid base64 whose decoded
+// text has a colon, and the users cache (htpasswd file or etcd, bcrypt: external) matches the user-id before
+// the first colon with everything after it as the password
+ufunc cacheMatches(c int, user string, pass string) bool
+iface (c AuthorizedUsersCache) Match(userID string, password string) (ok bool)
+  pure
+  ensures ok == cacheMatches(ifaceVal(c), userID, password)
+pred basicCred(req *httpprot.Request) := substr(headerGet(ref(req.Request.Header), "Authorization"), 6, len(headerGet(ref(req.Request.Header), "Authorization")) - 6)
+// userPart / passPart: the text before the first colon and the text after it (unique: RFC 7617 user-ids have no colon)
+ufunc userPart(creds string) string
+ufunc passPart(creds string) string
+axiom the-first-colon-splits-uniquely: forall u, p string :: !contains(u, ":") ==> userPart(u ++ ":" ++ p) == u && passPart(u ++ ":" ++ p) == p
+pred basicAccepts(bav *BasicAuthValidator, req *httpprot.Request) := hasPrefix(headerGet(ref(req.Request.Header), "Authorization"), "Basic ") && b64Valid(basicCred(req)) && contains(b64Decode(basicCred(req)), ":") && cacheMatches(ifaceVal(bav.authorizedUsersCache), userPart(b64Decode(basicCred(req))), passPart(b64Decode(basicCred(req))))
+ghost var gBasicUser string
+ghost var gBasicPass string
+ghost var gBasicAsked bool
 func (bav *BasicAuthValidator) Validate(req *httpprot.Request) (err error)
-  trusted
-  requires bav != nil && req != nil
-  modifies allof("map<string,[]string>#dom"), allof("map<string,[]string>#card"), allof("map<string,[]string>#val#arr"), allof("map<string,[]string>#val#len"), allof("map<string,[]string>#val#cap"), allof("elem<string>")
-  ensures (err == nil) <==> basicAccepts(ref(bav), ref(req))
+  flag allocates
+  requires bav != nil && bav.authorizedUsersCache != nil && req != nil && req.Request != nil && req.Request.Header != nil
+  modifies gBasicUser, gBasicPass, gBasicAsked, allof("map<string,[]string>#dom"), allof("map<string,[]string>#card"), allof("map<string,[]string>#val#arr"), allof("map<string,[]string>#val#len"), allof("map<string,[]string>#val#cap"), allof("elem<string>")
+  ensures the-cache-is-asked-about-the-user-before-the-first-colon-and-the-rest-as-password: gBasicAsked ==> b64Decode(basicCred(req)) == gBasicUser ++ ":" ++ gBasicPass && !contains(gBasicUser, ":")
+  ensures malformed-credentials-never-reach-the-cache: !(hasPrefix(headerGet(ref(req.Request.Header), "Authorization"), "Basic ") && b64Valid(basicCred(req)) && contains(b64Decode(basicCred(req)), ":")) ==> err != nil && !gBasicAsked
+  ensures well-formed-credentials-are-decided-by-the-cache: hasPrefix(headerGet(ref(req.Request.Header), "Authorization"), "Basic ") && b64Valid(basicCred(req)) && contains(b64Decode(basicCred(req)), ":") ==> gBasicAsked && ((err == nil) <==> cacheMatches(ifaceVal(bav.authorizedUsersCache), gBasicUser, gBasicPass))
+  ensures decision: (err == nil) <==> basicAccepts(bav, req)
+  ghost at entry: gBasicAsked := false
+  ghost at call[1] Match: gBasicAsked := true
+  ghost at call[1] Match: gBasicUser := userID
+  ghost at call[1] Match: gBasicPass := password
 
 pred inReq(ctx *context.Context) := ptr(ctxInput(ref(ctx)), "*httpprot.Request")
-pred hdrOK(v *Validator, q *httpprot.Request) := v.headers == nil || httpheader.hdrRulesAccept(ref(v.headers.spec), ref(q.Request.Header))
-pred jwtOK(v *Validator, q *httpprot.Request) := v.jwt == nil || jwtAccepts(ref(v.jwt), ref(q))
+pred hdrOK(v *Validator, q *httpprot.Request) := v.headers == nil || httpheader.hdrRulesAccept(v.headers.spec, q.Request.Header)
+pred jwtOK(v *Validator, q *httpprot.Request) := v.jwt == nil || jwtAccepts(v.jwt, q)
 pred sigOK(v *Validator, q *httpprot.Request) := v.signer == nil || signer.sigAccepts(ref(v.signer), ref(q.Request))
 pred oauthOK(v *Validator, q *httpprot.Request) := v.oauth2 == nil || oauthAccepts(ref(v.oauth2), ref(q))
-pred basicOK(v *Validator, q *httpprot.Request) := v.basicAuth == nil || basicAccepts(ref(v.basicAuth), ref(q))
+pred basicOK(v *Validator, q *httpprot.Request) := v.basicAuth == nil || basicAccepts(v.basicAuth, q)
 pred outStatus() := ptr(outResp, "*httpprot.Response").Response.StatusCode
 
 func (v *Validator) Handle(ctx *context.Context) (result string)
   flag allocates
   flag frame=unchecked
   requires v != nil && ctx != nil && ctxInput(ref(ctx)) != 0
+  requires validators-are-built-whole: (v.headers != nil ==> v.headers.spec != nil && (forall k string :: (k in *v.headers.spec) ==> (*v.headers.spec)[k] != nil)) && (v.jwt != nil ==> v.jwt.spec != nil) && (v.basicAuth != nil ==> v.basicAuth.authorizedUsersCache != nil)
   requires as-it-arrives-through-the-http-server: inReq(ctx).stream == nil && signer.fwdLen(ref(inReq(ctx).Request)) == len(inReq(ctx).payload)
-  ensures accepted-only-if-every-configured-method-accepts: result == "" ==> hdrOK(v, inReq(ctx)) && jwtOK(v, inReq(ctx)) && sigOK(v, inReq(ctx)) && oauthOK(v, inReq(ctx)) && basicOK(v, inReq(ctx))
-  ensures accepted-if-every-configured-method-accepts: hdrOK(v, inReq(ctx)) && jwtOK(v, inReq(ctx)) && sigOK(v, inReq(ctx)) && oauthOK(v, inReq(ctx)) && basicOK(v, inReq(ctx)) ==> result == ""
+  ensures accepted-only-if-every-configured-method-accepts: result == "" ==> old(hdrOK(v, inReq(ctx))) && jwtOK(v, inReq(ctx)) && sigOK(v, inReq(ctx)) && oauthOK(v, inReq(ctx)) && basicOK(v, inReq(ctx))
+  ensures accepted-if-every-configured-method-accepts: old(hdrOK(v, inReq(ctx))) && jwtOK(v, inReq(ctx)) && sigOK(v, inReq(ctx)) && oauthOK(v, inReq(ctx)) && basicOK(v, inReq(ctx)) ==> result == ""
   ensures rejected-is-invalid: result == "" || result == "invalid"
-  ensures header-rules-answer-400: result != "" && !hdrOK(v, inReq(ctx)) ==> outStatus() == 400
-  ensures credentials-answer-401: result != "" && hdrOK(v, inReq(ctx)) ==> outStatus() == 401
+  ensures header-rules-answer-400: result != "" && !old(hdrOK(v, inReq(ctx))) ==> outStatus() == 400
+  ensures credentials-answer-401: result != "" && old(hdrOK(v, inReq(ctx))) ==> outStatus() == 401
   closure[1] (status int, tagPrefix string, err error)
     flag allocates
     flag frame=unchecked
